@@ -105,6 +105,15 @@ Clone(s, t) ==
     /\ UNCHANGED perm /\ last' = NoObs
     /\ Step([op |-> "clone", src |-> s, i |-> t])
 
+\* t.clone_from(&s) for two live instances of one type: the value in t is dropped (its arm is erased) and the storage
+\* is refilled with a copy of s, arm and token included - a separate code path from Clone when written by hand
+CloneFrom(s, t) ==
+    /\ Live(s) /\ Live(t) /\ s # t /\ inst[s].kind = inst[t].kind
+    /\ inst' = [inst EXCEPT ![t] = inst[s]]
+    /\ dead' = [dead EXCEPT ![t] = (dead[t] \ {inst[t].tok}) \cup {inst[s].tok}]
+    /\ UNCHANGED perm /\ last' = NoObs
+    /\ Step([op |-> "clone_from", src |-> s, i |-> t])
+
 \* From<Enc> (by value: consumes the source) / From<&Enc>: derive dk from the source's ek, keep the token
 FromEnc(s, t, kind, byRef) ==
     /\ Live(s) /\ inst[s].kind = "enc" /\ kind \in {"both", "dec"}
@@ -153,6 +162,7 @@ Next ==
     \/ \E s \in Slots, kind \in Kinds : NewBadLen(s, kind)
     \/ \E s \in Slots, k \in KeyIds, a \in Arms, w \in BOOLEAN : NewChecked(s, k, "both", a, w)
     \/ \E s, t \in Slots : Clone(s, t)
+    \/ \E s, t \in Slots : CloneFrom(s, t)
     \/ \E s, t \in Slots, kind \in {"both", "dec"}, r \in BOOLEAN : FromEnc(s, t, kind, r)
     \/ \E s \in Slots, b \in Blocks : Enc(s, b) \/ Dec(s, b)
     \/ \E s \in Slots, n \in NSizes : EncN(s, n, 1) \/ DecN(s, n, 1)
